@@ -62,7 +62,7 @@ inline std::string jesc(const std::string &s) {
 struct Shared {
     sem_t tokens;
     std::atomic<long> paths, forks, queries, solver_us, obligations, discharged, violations, crashes, faults,
-            maxdepth, cache_hits, syntactic, leaves, cex_seq, path_seq, witness_hits, infeasible, events;
+            maxdepth, cache_hits, syntactic, leaves, cex_seq, path_seq, witness_hits, infeasible, events, narrowings;
     long max_paths;
     // breadcrumbs: what a process was doing (harness-provided), readable by whoever reaps it after a crash
     enum { NCRUMB = 4096, CRUMB_LEN = 1536, CASE_LEN = 640 };
@@ -108,6 +108,7 @@ struct Engine {
     std::string case_desc;   // harness-provided description of the case (topology, algo, ...)
     std::string case_json;   // same as JSON object body (without braces)
     long path_id = 0;
+    int narrow_forks = 0;
     long depth = 0;
     long pc_atoms = 0;
     bool own_token = true;
@@ -639,6 +640,73 @@ public:
     z3::expr expr() const { return f.expr(); }
     Q value() const { return f.eval(); }
     friend std::ostream &operator<<(std::ostream &o, const Real &r) { return o << r.f.key(); }
+
+    // ---- narrowing to an integral type (C++ truncation towards zero).  The pinned library never does this; the
+    // conversion exists so that a tree which stores a weight in an integer still instantiates, and its effect is
+    // explored instead of ending in a build failure.  The truncated value is fixed under the current model, the PC
+    // receives "trunc(f) == k", and the complement is forked (at most NARROW_FORKS times per path; beyond that the
+    // path is concretised on this value, counted in `narrowings`).  Leaf obligations are still decided over all
+    // weights satisfying the PC, so a lost fractional part is found on the first such path.
+    enum { NARROW_FORKS = 2 };
+    long narrow() const {
+        Engine *e = E();
+        auto trunc_q = [](const Q &v) -> boost::multiprecision::cpp_int {
+            return boost::multiprecision::numerator(v) / boost::multiprecision::denominator(v);
+        };
+        if (f.is_const()) return (long) trunc_q(f.k);
+        note_inf(*this);
+        for (;;) {
+            Q v = f.eval();
+            boost::multiprecision::cpp_int k = trunc_q(v);
+            z3::expr fe = f.expr();
+            z3::expr kk = e->ctx.real_val(k.str().c_str());
+            z3::expr one = e->ctx.real_val(1);
+            z3::expr mine = (k > 0) ? (fe >= kk && fe < kk + one)
+                          : (k < 0) ? (fe > kk - one && fe <= kk)
+                                    : (fe > kk - one && fe < kk + one);
+            if (e->narrow_forks < NARROW_FORKS) {
+                z3::expr other = !mine;
+                z3::model *m = nullptr;
+                if (check_with(&other, &m)) {
+                    e->narrow_forks++;
+                    bool child = spawn(*m);
+                    if (child) {
+                        assert_pc(other);
+                        adopt_model(*m);
+                        delete m;
+                        continue;
+                    }
+                    delete m;
+                }
+            }
+            assert_pc(mine);
+            e->sh->narrowings++;
+            return (long) k;
+        }
+    }
+    template<class T, typename std::enable_if<std::is_integral<T>::value, int>::type = 0>
+    operator T() const { return (T) narrow(); }
+
+    // mixed arithmetic/comparison with built-in numbers: exact matches, so that the implicit conversion above never makes
+    // `Real op int` ambiguous with the built-in operator
+#define SYMX_MIX_A(OP)                                                                                              \
+    template<class T, typename std::enable_if<std::is_arithmetic<T>::value, int>::type = 0>                        \
+    friend Real operator OP(const Real &a, T b) { return a OP of_num(b); }                                          \
+    template<class T, typename std::enable_if<std::is_arithmetic<T>::value, int>::type = 0>                        \
+    friend Real operator OP(T a, const Real &b) { return of_num(a) OP b; }
+#define SYMX_MIX_C(OP)                                                                                              \
+    template<class T, typename std::enable_if<std::is_arithmetic<T>::value, int>::type = 0>                        \
+    friend bool operator OP(const Real &a, T b) { return a OP of_num(b); }                                          \
+    template<class T, typename std::enable_if<std::is_arithmetic<T>::value, int>::type = 0>                        \
+    friend bool operator OP(T a, const Real &b) { return of_num(a) OP b; }
+    SYMX_MIX_A(+) SYMX_MIX_A(-) SYMX_MIX_A(*)
+    SYMX_MIX_C(<) SYMX_MIX_C(>) SYMX_MIX_C(<=) SYMX_MIX_C(>=) SYMX_MIX_C(==) SYMX_MIX_C(!=)
+#undef SYMX_MIX_A
+#undef SYMX_MIX_C
+    template<class T> static Real of_num(T v) {
+        if (std::is_floating_point<T>::value) return Real((double) v);
+        return Real((long) v);
+    }
 };
 
 template<class V>
@@ -910,6 +978,7 @@ inline int run_cases(const Options &opt, const std::function<void(const Case &, 
       << ",\"maxdepth\":" << sh->maxdepth.load() << ",\"cache_hits\":" << sh->cache_hits.load()
       << ",\"syntactic\":" << sh->syntactic.load() << ",\"witness_hits\":" << sh->witness_hits.load()
       << ",\"infeasible\":" << sh->infeasible.load() << ",\"inf_events\":" << sh->events.load()
+      << ",\"narrowings\":" << sh->narrowings.load()
       << ",\"wall_s\":" << wall << "}\n";
     std::string s = o.str();
     if (log_fd >= 0) { ssize_t r = write(log_fd, s.data(), s.size()); (void) r; }
